@@ -214,6 +214,7 @@ func (x *Xlat) store(st *State, out *Outcomes, p Place, v *Term, pos token.Pos) 
 		lhs := x.atTerm(h2, tb, jb, es)
 		hit := And(Eq(SArr(tb), arr), Eq(App("+", SInt, SOff(tb), jb), App("+", SInt, SOff(p.sl), p.idx)))
 		st.assume(Forall([]Bind{{"t!", SSlice}, {"j!", SInt}}, Eq(lhs, Ite(hit, val, x.atTerm(h, tb, jb, es))), []*Term{lhs}))
+		st.assume(Eq(x.atTerm(h2, p.sl, p.idx, es), val)) // ground instance (survives quantifier-free weakenings)
 	case PMapElem:
 		ks, vs := x.tm.SortOf(p.kt), x.tm.SortOf(p.vt)
 		x.safety(st, out, "nilmap", Not(Eq(p.m, TNull)), pos, "assignment to entry in nil map")
